@@ -102,7 +102,12 @@ func c12SchedScenario(c *fw.Ctx, sp c12Spec) schedScenario {
 				}
 				present := func(key, mb string) bool {
 					m, err := st.GetMessage(mb, getID(key))
-					return err == nil && m != nil
+					if err != nil || m == nil {
+						return false
+					}
+					// present means readable: a listed message whose content is gone does not count
+					o := sys.Observe(m)
+					return o.BodyErr == "" && strings.Contains(o.Body, "retention "+key)
 				}
 				var ctx context.Context
 				ctx, cancel = context.WithCancel(context.Background())
